@@ -340,6 +340,24 @@ class Driver:
             self.p.kill()
 
 
+def coqchk(prop_file, timeout=1800):
+    """coqchk -o on the compiled Props/<prop>.vo: re-checks it and all its dependencies with the independent checker and
+    lists the axioms.  -> dict(ok, axioms, seconds, log)"""
+    t0 = time.time()
+    with BuildLock():
+        rc, out = sh("coqchk -silent -o -R . CV CV.Props.%s" % prop_file, cwd=COQ, timeout=timeout)
+    axioms = []
+    m = re.search(r"\* Axioms:(.*?)\n\s*\n\* Constants/Inductives relying on type-in-type", out, re.S)
+    if m:
+        axioms = [a.strip() for a in m.group(1).split("\n") if a.strip() and a.strip() != "<none>"]
+    bad = []
+    for label in ("type-in-type", "unsafe (co)fixpoints", "positivity is assumed"):
+        mm = re.search(re.escape(label) + r":\s*(.*?)\n\s*\n", out + "\n\n", re.S)
+        if mm and mm.group(1).strip() != "<none>":
+            bad.append(label)
+    return {"ok": rc == 0 and m is not None and not bad, "axioms": axioms, "seconds": round(time.time() - t0, 1), "log": out[-3000:]}
+
+
 # ----------------------------------------------------------------------------------------------
 # known findings, evidence, violations
 # ----------------------------------------------------------------------------------------------
@@ -381,6 +399,16 @@ class Report:
                     pass
 
     def obligations(self, props_result, checker_cmd):
+        if self.tier == "thorough" and props_result.get("ok"):
+            # the independent checker re-checks the compiled property file and everything it depends on
+            ck = coqchk(self.prop)
+            self.cov["coqchk"] = {k: ck[k] for k in ("ok", "axioms", "seconds")}
+            if not ck["ok"]:
+                props_result["ok"] = False
+                props_result["log"] = (props_result.get("log") or "") + "\ncoqchk: " + ck["log"][-1500:]
+                for o in props_result["obligations"]:
+                    o["ok"] = False
+                    o["axioms"] = list(o.get("axioms") or []) + ["<coqchk failed>"]
         obs = props_result["obligations"]
         self.cov["obligations"] += len(obs)
         self.cov["discharged"] += sum(1 for o in obs if o["ok"])
